@@ -213,6 +213,35 @@ Theorem C20_refines_Unmark : forall i, refines_inplace (unmark_h i) no_pre (fun 
 Proof. exact refines_unmark_h. Qed.
 Print Assumptions C20_refines_Unmark.
 
+(* every other read-only routine with a fresh result (the table's routines 6, 8-11: least squares,
+   SCC, Subgraph*, traversals, dominators, SimplifyMulti, MakeBiGraph, Dot, slice statistics,
+   t-tests, distribution methods), for ANY function m of the argument contents: the result is m
+   of the contents at the call and nothing that existed before changes *)
+Theorem C20_refines_any_readonly_fresh : forall (A R : Type) k (m : list (arr A) -> arr A) (out : arr A -> R),
+  refines_readonly (pure_h k m out) no_pre (fun rho => out (m (map rho (seq 0 k)))).
+Proof. exact @refines_pure_h. Qed.
+Print Assumptions C20_refines_any_readonly_fresh.
+
+(* the valued array programs have exactly the footprints of their entries in the table that
+   Check/C20.v compares the observed modifications with *)
+Theorem C20_valued_programs_match_table :
+  (forall A cmp cdf EL TL alt, written_args (v_prog (@mw_h A cmp cdf EL TL alt)) [] = table_footprint 1) /\
+  (forall w q, written_args (v_prog (quantile_h w false q)) [] = table_footprint 2) /\
+  (forall w, written_args (v_prog (iqr_h w false)) [] = table_footprint 3) /\
+  (forall N lo hi, written_args (v_prog (sample_ci_h N lo hi false)) [] = table_footprint 4) /\
+  (forall d s x, written_args (v_prog (loess_h d s x)) [] = table_footprint 5) /\
+  (forall A R k m out, written_args (v_prog (@pure_h A R k m out)) [] = table_footprint 11) /\
+  (written_args (v_prog (sort_h true false)) [] = rev (table_footprint 20)) /\
+  (written_args (v_prog reverse_h) [] = table_footprint 21) /\
+  (forall b o g, written_args (v_prog (lin_nice_h b o g)) [] = table_footprint 22) /\
+  (forall c, written_args (v_prog (set_clamp_h c)) [] = table_footprint 22) /\
+  (forall x, written_args (v_prog (add_h x)) [] = table_footprint 23) /\
+  (forall i, written_args (v_prog (mark_h i)) [] = table_footprint 23) /\
+  (written_args (v_prog combine_h) [] = table_footprint 24) /\
+  (forall sc w kn b x, written_args (v_prog (kde_pdf_h sc w kn b x)) [] = table_footprint 25).
+Proof. exact valued_footprints. Qed.
+Print Assumptions C20_valued_programs_match_table.
+
 (* Non-vacuity of the refinement statements: Quantile on a weighted unsorted sample with a tie,
    run through a store where the sample's arrays sit between other data: result = the model's
    value, the store's old part is intact, two fresh arrays were allocated; Sample.Sort on the
